@@ -47,7 +47,20 @@ Fixpoint inputs_go (events : list (N * handle)) (hist : list rx) : list (N * inp
   | (t, HApi c) :: r => (t, IApi (api_strip c)) :: inputs_go r hist
   | _ :: r => inputs_go r hist
   end.
-Definition inputs_of (sc : scenario) : list (N * input) := inputs_go (sc_events sc) [].
+(* application calls made some loop iterations into their instant (ApiSoon) take effect after everything that arrives
+   in the first iteration of that instant: they are moved behind the other events of the instant, fewer hops first
+   (a stable insertion sort on (time, hops); the events are sorted by time already) *)
+Fixpoint api_hops (c : api) : nat := match c with ApiSoon c' => S (api_hops c') | _ => O end.
+Definition ev_hops (e : N * handle) : nat := match snd e with HApi c => api_hops c | _ => O end.
+Definition ev_before (x y : N * handle) : bool :=     (* x may stay in front of y *)
+  (fst x <? fst y) || ((fst x =? fst y) && Nat.leb (ev_hops x) (ev_hops y)).
+Fixpoint insert_ev (x : N * handle) (l : list (N * handle)) : list (N * handle) :=
+  match l with
+  | [] => [x]
+  | y :: r => if ev_before x y then x :: l else y :: insert_ev x r
+  end.
+Definition order_events (l : list (N * handle)) : list (N * handle) := fold_right insert_ev [] l.
+Definition inputs_of (sc : scenario) : list (N * input) := inputs_go (order_events (sc_events sc)) [].
 
 (* decoded SD entries of a sent datagram: (reboot flag, session id, resolved entries) *)
 Definition decode_sent (data : bytes) : option (bool * N * list sdentry) :=
